@@ -798,9 +798,9 @@ class ET(Inverter):
             await self.write_setting('battery_discharge_depth', 100 - dod)
 
     def _get_sensor(self, sensor_id: str) -> Sensor | None:
-        if self._sensors_map is None or sensor_id not in self._sensors_map:
-            # (re)build the map, the set of available sensors may have changed since it was created
-            self._sensors_map = {s.id_: s for s in self.sensors()}
+        # always resolve against the current list, the set of available sensors (and which definition
+        # an id stands for) changes at runtime
+        self._sensors_map = {s.id_: s for s in self.sensors()}
         return self._sensors_map.get(sensor_id)
 
     def sensors(self) -> tuple[Sensor, ...]:
